@@ -563,9 +563,42 @@ def gen_dependency_sets(tier):
                        c_prefix='C', symbol_prefix='c'))
 
 
+def gen_callable_flags_x_attrs(tier):
+    """Every callable kind in every container kind that may hold it (function at top level / in an enumeration / in a
+    bitfield / static in a record, union, class and interface; method and constructor of record, union, class; callback;
+    virtual function) crossed with throws x deprecated x 0..2 free-form <attribute> children: writers and readers that
+    handle the start tag's own attributes and the <attribute> children in separate steps must not lose either."""
+    k = 0
+    combos = list(itertools.product((0, 1), (0, 1), (0, 1, 2)))
+    for throws, dep, nattr in combos:
+        def kw(tag):
+            return dict(throws=bool(throws), deprecated=bool(dep), attributes=[('%s.a%d' % (tag, i), 'v%d' % i) for i in range(nattr)])
+        sfx = '%d%d%d' % (throws, dep, nattr)
+        fns = lambda owner: [Function('sf', Ret(B('gint')), [Param('a', B('gint'))], symbol='c_%s_sf' % owner.lower(), **kw('sf'))]
+        yield ('cfa-function:' + sfx, Function('cfa_%s' % sfx, Ret(B('utf8'), 'full'), [Param('a', B('gint'))], **kw('fn')))
+        yield ('cfa-callback:' + sfx, CallbackT('CfaCb%s' % sfx, Ret(B('gint')), [Param('a', B('gint'))], ctype='CCfaCb%s' % sfx, **kw('cb')))
+        yield ('cfa-enum:' + sfx, EnumN('CfaE%s' % sfx, [Member('a', 0), Member('b', 1)], functions=fns('CfaE' + sfx)))
+        yield ('cfa-flags:' + sfx, EnumN('CfaF%s' % sfx, [Member('a', 1), Member('b', 2)], flags=True, functions=fns('CfaF' + sfx)))
+        yield ('cfa-flags-gtype:' + sfx, EnumN('CfaG%s' % sfx, [Member('a', 1), Member('b', 2)], flags=True,
+                                               gtype=('CCfaG%s' % sfx, 'c_cfag%s_get_type' % sfx), functions=fns('CfaG' + sfx)))
+        for union in (False, True):
+            n = 'Cfa%s%s' % ('U' if union else 'R', sfx)
+            meths = [Method('m', Ret(B('gint')), [Param('a', B('gint'))], instance=(I(n, 'C' + n), 'none'), symbol='c_%s_m' % n.lower(), **kw('m')),
+                     Constructor('new', Ret(I(n, 'C' + n), 'full'), [], symbol='c_%s_new' % n.lower(), **kw('new'))] + fns(n)
+            yield ('cfa-%s:%s' % ('union' if union else 'record', sfx), RecordN(n, [FieldN('x', B('gint'))], meths, union=union))
+        n = 'CfaC%s' % sfx
+        yield ('cfa-class:' + sfx,
+               ClassN(n, parent='Obj',
+                      methods=[Method('m', Ret(B('gint')), [Param('a', B('gint'))], instance=(I(n, 'C' + n), 'none'), symbol='c_%s_m' % n.lower(), **kw('m')),
+                               Constructor('new', Ret(I(n, 'C' + n), 'full'), [], symbol='c_%s_new' % n.lower(), **kw('new'))] + fns(n),
+                      vfuncs=[VFunc('v', Ret(B('gint')), [Param('a', B('gint'))], instance=(I(n, 'C' + n), 'none'),
+                                    throws=bool(throws), attributes=[('v.a%d' % i, 'v%d' % i) for i in range(nattr)])]))
+        k += 1
+
+
 ALL_GENS = [gen_callbacks, gen_enums, gen_records, gen_classes, gen_functions, gen_type_positions, gen_constants,
             gen_attr_everywhere, gen_same_type_everywhere, gen_return_flags,
-            gen_attr_table_edges, gen_name_clash, gen_alias_chains, gen_dependency_sets]
+            gen_attr_table_edges, gen_name_clash, gen_alias_chains, gen_dependency_sets, gen_callable_flags_x_attrs]
 
 # entries every batch needs because other entries refer to them by name
 SUPPORT = ('cb-basic', 'enum-En', 'rec-Rec', 'class-Obj', 'class-ObjClass', 'iface-IfA', 'iface-IfB', 'iface-IfC', 'alias')
